@@ -44,6 +44,10 @@ func seqFrames() [][]byte {
 }
 
 func evalSeq(frames [][]byte, mode string, code uint8, delivery string, res *ev.Result, lc *local) {
+	retryUnderSched(func() { evalSeq1(frames, mode, code, delivery, res, lc) })
+}
+
+func evalSeq1(frames [][]byte, mode string, code uint8, delivery string, res *ev.Result, lc *local) {
 	lc.evals++
 	var hx []string
 	var stream []byte
